@@ -35,30 +35,31 @@ def OBJ_EXECS(c, T):
 def OBJ_TYPE(c):
     return f'({c} != nil && (typeof({c}) == type(*erc20CustomPrecompiledContract) || typeof({c}) == type(*stakingCustomPrecompiledContract) || typeof({c}) == type(*bech32CustomPrecompiledContract)))'
 def SHORT(T): return T[:-len("CustomPrecompiledContract")]
-w('''// GetAllCustomPrecompiledContracts: one contract object per registry record, in the same order; object i carries record i
-// unchanged (address, type, name, typed metadata, DISABLED flag) and a non-empty list of non-nil executors.''')
+def OBJ_ALL(c, rec):
+    parts = [f'{c} != nil', f'1 <= pbMetaType({rec})', f'pbMetaType({rec}) <= 3']
+    for n, T in enumerate(CPC_TYPES):
+        u = f'unbox({c}, type(*{T}))'
+        parts.append(f'(pbMetaType({rec}) == {n+1} ==> typeof({c}) == type(*{T}))')
+        parts.append(f'(typeof({c}) == type(*{T}) ==> ({u} != nil && {META_IS(u + ".metadata", rec)} && len({u}.executors) > 0))')
+    return '(' + ' && '.join(parts) + ')'
+def EXECS_NONNIL(c, T, i):
+    u = f'unbox({c}, type(*{T}))'
+    return f'(typeof({c}) == type(*{T}) && 0 <= j && j < len({u}.executors)) ==> {u}.executors[j] != nil'
+w('''// GetAllCustomPrecompiledContracts: one contract object per registry record, in the same order; object i is of the type
+// its record names (1 ERC-20, 2 staking, 3 bech32), carries record i unchanged (address, type, name, typed metadata, DISABLED
+// flag) and a non-empty list of executors. (One quantified clause per fact family: a caller that looks at element i
+// gets everything about it from one instantiation.)''')
 w('//@ func (k Keeper) GetAllCustomPrecompiledContracts(ctx sdk.Context) (contracts []CustomPrecompiledContractI)')
 w('//@   requires k.storeKey != nil && k.cdc != nil')
 w('//@   modifies nothing')
 w(f'//@   ensures[C17.one_object_per_record] len(contracts) == {N("ctx","k")}')
-w(f'//@   ensures[C17.records_of_known_type] forall i int :: (0 <= i && i < len(contracts)) ==> (1 <= pbMetaType({REC("ctx","k","i")}) && pbMetaType({REC("ctx","k","i")}) <= 3)')
-for n, T in enumerate(CPC_TYPES):
-    w(f'//@   ensures[C17.object_type_of_record_{SHORT(T)}] forall i int :: (0 <= i && i < len(contracts)) ==> (pbMetaType({REC("ctx","k","i")}) == {n+1} ==> typeof(contracts[i]) == type(*{T}))')
-for T in CPC_TYPES:
-    w(f'//@   ensures[C17.object_is_record_{SHORT(T)}] forall i int :: (0 <= i && i < len(contracts)) ==> {OBJ_META("contracts[i]", T, REC("ctx","k","i"))}')
-    w(f'//@   ensures[C17.object_executors_{SHORT(T)}] forall i int :: (0 <= i && i < len(contracts)) ==> {OBJ_EXECS("contracts[i]", T)}')
+w(f'//@   ensures[C17.object_is_record] forall i int :: (0 <= i && i < len(contracts)) ==> {OBJ_ALL("contracts[i]", REC("ctx","k","i"))}')
 w('//@   ensures cap(contracts) == 0 || fresh(base(contracts))')
 w('//@ loop 1')
 w('//@   fresh_writes')
 w(f'//@   invariant -1 <= rangeindex && rangeindex < len(metas) && len(contracts) == rangeindex + 1 && (cap(contracts) == 0 || fresh(base(contracts)))')
-w(f'//@   invariant forall i int :: (0 <= i && i <= rangeindex) ==> (1 <= pbMetaType({REC("ctx","k","i")}) && pbMetaType({REC("ctx","k","i")}) <= 3)')
-for n, T in enumerate(CPC_TYPES):
-    w(f'//@   invariant forall i int :: (0 <= i && i <= rangeindex) ==> (pbMetaType({REC("ctx","k","i")}) == {n+1} ==> typeof(contracts[i]) == type(*{T}))')
-for T in CPC_TYPES:
-    w(f'//@   invariant forall i int :: (0 <= i && i <= rangeindex) ==> {OBJ_META("contracts[i]", T, REC("ctx","k","i"))}')
-    w(f'//@   invariant forall i int :: (0 <= i && i <= rangeindex) ==> {OBJ_EXECS("contracts[i]", T)}')
+w(f'//@   invariant forall i int :: (0 <= i && i <= rangeindex) ==> {OBJ_ALL("contracts[i]", REC("ctx","k","i"))}')
 w()
-
 w('''// The accessors of the three contract objects return the stored record / executor list unchanged (value receivers: the
 // pointer-receiver wrappers share these contracts). With contracts here, a call through CustomPrecompiledContractI is
 // split over these six implementations without copying the objects.''')
